@@ -242,11 +242,11 @@ def main(tier):
     for (d, o, t, x), m in zip(parsed, model):
         c.count(("P:" + ("SP:" if "sourcepos=1" in o else "") + t).encode(), t.count("(") > 2)
         if x.startswith("!"):
-            c.violation("format_xml panics on a tree produced by the parser", {"source": "parser", "doc": hx(d), "opts": o, "observed": x, "model": m[:200]})
+            c.violation("format_xml panics on a tree produced by the parser", {"source": "parser", "doc": hx(d), "opts": o, "observed": x, "model": m[:200], "line": f"render xml {o} {t}"})
             continue
         if m != "ok " + x:
             c.problem("correspondence", "render.xml", f"parser tree: doc={hx(d)[:400]} opts={o} impl={x[:300]} model={m[:300]}",
-                      {"source": "parser", "doc": hx(d), "opts": o, "tree": t, "impl": x, "model": m})
+                      {"source": "parser", "doc": hx(d), "opts": o, "tree": t, "impl": x, "model": m, "line": f"render xml {o} {t}"})
         else:
             agree += 1
     c.cov["correspondences"]["render.xml/parser-trees"] = {"cases": len(parsed), "agree": agree}
@@ -287,7 +287,7 @@ def main(tier):
             agree += 1
         else:
             c.problem("correspondence", "render.xml", f"synthetic tree ({src}): tree={t[:400]} opts={o} impl={a[:300]} model={m[:300]}",
-                      {"source": src, "opts": o, "tree": t, "impl": a, "model": m})
+                      {"source": src, "opts": o, "tree": t, "impl": a, "model": m, "line": f"render xml {o} {t}"})
     c.cov["correspondences"]["render.xml/synthetic-trees"] = {"cases": len(synth), "agree": agree, "coinciding_panics": panics, "by_source": by_src}
     # the Coq witnesses of C09_xml_total_refuted, on the implementation
     wit = dict(viol)
@@ -309,7 +309,7 @@ def main(tier):
             c.problem("correspondence", "xml_check", f"driver: {r[:200]}", {"source": src, "opts": o, "tree": t[:2000], "xml": x[:2000]})
             continue
         f = dict(kv.split("=", 1) for kv in r[3:].split(" ") if "=" in kv)
-        case = {"source": src, "opts": o, "tree": t, "xml": x, "checked": r}
+        case = {"source": src, "opts": o, "tree": t, "xml": x, "checked": r, "line": f"render xml {o} {t}"}
         if d is not None:
             case["doc"] = hx(d)
         shape = f["cells"] == "1" and f["leaves"] == "1"
